@@ -72,7 +72,7 @@ def create_directory(U):
 
 HOSTILE = ["La/b/C;", "L../../esc;", "L../x;", "L/abs/x;", "L./x;", "La//b;", "La/../../../y;", "L..;", "L.;", "L;", "La/..;",
            "L" + "x" * 300 + ";", "Lsp ace/dot./x;", "La/b/../../../../z;"]
-METHS = ["m", "../../m", "/abs", "a/b", "..", "<init>"]
+METHS = ["m", "../../m", "/abs", "a/b", "..", "<init>", "a/../../../pwn/xyz", "x/../../../../../e", "a/b/../../../../../../f/g", "/../../../h/i"]
 
 
 class _M:
@@ -130,7 +130,7 @@ class _S:
 
 def _enum(tier, **_):
     for ci in range(len(HOSTILE)):
-        for mi in range(len(METHS) if tier != "quick" else 3):
+        for mi in range(len(METHS)):
             yield {"cls": ci, "meth": mi}
 
 
